@@ -122,7 +122,7 @@ func getHorizontalWindow(state ListBoxState, padding, width, height int) (int, i
 		scrollbar = true
 		height--
 	}
-	selected, lastFirst := state.Selected, state.First
+	selected, lastFirst := fixIndex(state.Selected, n), state.First
 	// Start with the column containing the selected item, move left until
 	// either the width is exhausted, or lastFirst has been reached.
 	first := selected / height * height
